@@ -16,6 +16,38 @@ def _acquire(**kw):
              must_fire={'A_LOAD': 2, 'A_CASW': 1, 'self_call:is_write_pending': 2})
     d.update(kw); return d
 
+def _nat(w):
+    return 8 if w % 8 == 0 else 4 if w % 4 == 0 else 2 if w % 2 == 0 else 1
+def _uw(w):   # copy loops: one word per iteration, ceil(W/8) words at most (+ exit test)
+    n = (w + 7) // 8 + 1
+    return ['sl_read_data.0:%d' % n, 'sl_store_data.1:%d' % n]
+SEQ_UW = ['sl_acquire_lock.0:1', 'sl_acquire_lock.1:2', 'sl_load.0:1', 'sl_load.1:2']
+def _run(kind, entry, w, a, s, tiers, mode='SEQ', cls='shape-complete', extra=(), **kw):
+    return dict(id='%s_w%da%ds%d' % (kind, w, a, s), entry=entry, tiers=tiers, mode=mode, cls=cls,
+                defs={'XV_W': w, 'XV_A': a, 'XV_S': s}, unwindset=_uw(w) + list(extra), **kw)
+RUNS = []
+Q = ['quick', 'thorough']; TH = ['thorough']
+QUICK_COPY = [(12, 4, 2), (16, 8, 2), (16, 4, 3), (20, 4, 3), (24, 8, 1), (33, 1, 2), (64, 8, 8)]
+for (w, a, s) in QUICK_COPY: RUNS.append(_run('copy', 'h_copy', w, a, s, Q))
+for w in range(9, 65):
+    for a in sorted(set([1, _nat(w)])):
+        for s in (1, 3):
+            if (w, a, s) not in QUICK_COPY: RUNS.append(_run('copy', 'h_copy', w, a, s, TH))
+RUNS.append(_run('lock', 'h_lock', 16, 8, 2, Q, extra=SEQ_UW, cls='unbounded'))
+for s in (1, 2, 3, 4, 8):
+    RUNS.append(_run('store_load', 'h_store_load', 16, 8, s, Q, extra=SEQ_UW))
+    RUNS.append(_run('update', 'h_update', 16, 8, s, Q, extra=SEQ_UW))
+    RUNS.append(_run('slots', 'h_slots', 16, 8, s, Q, extra=SEQ_UW))
+    RUNS.append(_run('load_int', 'h_load_int', 16, 8, s, Q, mode='INT', note='retry loop and wait loop cut by invariant; all 64-bit _seq below the no-wrap bound'))
+    if s > 1:
+        RUNS.append(_run('load_solo', 'h_load_solo', 16, 8, s, Q, mode='SOLO', extra=['sl_load.0:1', 'sl_load.1:3'], unwind_obligation='sl.load.terminates'))
+RUNS.append(_run('acquire_int', 'h_acquire_int', 16, 8, 2, Q, mode='INT', cls='unbounded'))
+for (w, a, s) in [(24, 8, 3), (64, 8, 2), (12, 4, 2), (33, 1, 3)]:
+    t = Q if w == 24 else TH
+    RUNS.append(_run('store_load', 'h_store_load', w, a, s, t, extra=SEQ_UW))
+    RUNS.append(_run('update', 'h_update', w, a, s, t, extra=SEQ_UW))
+    RUNS.append(_run('load_int', 'h_load_int', w, a, s, t, mode='INT'))
+
 UNIT = dict(
   title='seqlock: word-wise copy, slot arithmetic, lock parity, reader validation (C14)',
   properties=['C14'],
@@ -41,7 +73,7 @@ UNIT = dict(
   ],
   sources=[
     dict(id='is_write_pending', file=F, sig=r'bool is_write_pending\(sequence_t seq\) const',
-         c_sig='static _Bool sl_is_write_pending(const struct seqlock* self, sequence_t seq)', must_fire={}),
+         c_sig='#include "sl_types.h"\nstatic _Bool sl_is_write_pending(const struct seqlock* self, sequence_t seq)', must_fire={}),
     dict(id='read_data', file=F, sig=r'void ' + CLS + r'read_data\(T& dest, const storage_t& src\) const',
          c_sig='static void sl_read_data(const struct seqlock* self, T* dest_p, const storage_t* src_p)',
          types=ATOMIC_PTR, subst=[(r'\bdest\b', '(*dest_p)', 'dest_ref'), (r'\bsrc\b', '(*src_p)', 'src_ref'), (r'\bstd::memcpy\b', 'memcpy', 'memcpy')],
@@ -62,17 +94,40 @@ UNIT = dict(
           must_fire={'A_LOAD': 3, 'self_call:read_data': 1, 'self_call:is_write_pending': 1, 'subst:by_ref': 1, 'member:_data': 1, 'cut_loop': 2}),
     dict(id='store', file=F, sig=r'void ' + CLS + r'store\(const T& value\)',
          c_sig='static void sl_store(struct seqlock* self, const T* value_p)',
-         members=['_data'], self_calls={'acquire_lock': 'sl_acquire_lock', 'release_lock': 'sl_release_lock', 'store_data': 'sl_store_data'},
+         members=['_data'], self_calls={'acquire_lock': 'sl_acquire_lock', 'release_lock': 'sl_release_lock', 'store_data': 'SL_STORE_DATA'},
          subst=[(r'\bstore_data\(\s*(\w+)\s*,\s*([^;]+)\);', r'store_data(&\1, &\2);', 'by_ref'), (r'\bvalue\b', '(*value_p)', 'value_ref')],
          must_fire={'self_call:acquire_lock': 1, 'self_call:release_lock': 1, 'self_call:store_data': 1, 'subst:by_ref': 1, 'member:_data': 1}),
     dict(id='update', file=F, sig=r'void ' + CLS + r'update\(Func func\)',
          c_sig='static void sl_update(struct seqlock* self, int func)',
-         members=['_data'], self_calls={'acquire_lock': 'sl_acquire_lock', 'release_lock': 'sl_release_lock', 'store_data': 'sl_store_data', 'read_data': 'sl_read_data'},
+         members=['_data'], self_calls={'acquire_lock': 'sl_acquire_lock', 'release_lock': 'sl_release_lock', 'store_data': 'SL_STORE_DATA', 'read_data': 'SL_READ_DATA'},
          subst=[(r'\b(store_data|read_data)\(\s*(\w+)\s*,\s*([^;]+)\);', r'\1(&\2, &\3);', 'by_ref'), (r'\bfunc\((\w+)\);', r'XV_FUNCTOR(func, &\1);', 'functor')],
          must_fire={'self_call:acquire_lock': 1, 'self_call:release_lock': 1, 'self_call:store_data': 1, 'self_call:read_data': 1, 'subst:by_ref': 2,
                     'subst:functor': 1, 'member:_data': 2}),
   ],
-  runs=[],
-  obligations={},
-  canaries=[],
+  runs=RUNS,
+  obligations={
+    'sl.copy.all_bytes': dict(deciding=True, text='store_data makes every one of the sizeof(T) bytes of the slot equal to the source and touches nothing else (no other slot, not _seq); read_data returns every one of the sizeof(T) bytes of the slot, reading each once, and writes nothing shared'),
+    'sl.copy.in_bounds': dict(deciding=True, text='every word access of the copy loops lies inside the storage_t of the slot that was passed in'),
+    'sl.copy.aligned': dict(deciding=True, text='every atomic word access of the copy loops is aligned for std::atomic<copy_t> (given the seqlock object is)'),
+    'sl.lock.parity': dict(deciding=True, text='acquire_lock turns an even _seq v into v+1 and returns v+1; release_lock(v+1) makes it v+2; a write operation advances _seq by exactly 2 and leaves it even'),
+    'sl.lock.acquire': dict(deciding=True, text='[INT] acquire_lock returns only after its own CAS moved _seq from an even value e to e+1, returns e+1, and writes nothing else'),
+    'sl.writer.guarantee': dict(deciding=True, text='GUARANTEE of store/update = the readers\' rely: _seq is written only even->+1 by a CAS and odd->+1 by the lock holder; data words are written only by the lock holder while _seq is the odd value 2j+1 it installed, and only inside slot (j+1) mod slots'),
+    'sl.slot.writer': dict(deciding=True, text='store/update started at _seq = 2k write slot (k+1) mod slots (update reads slot k mod slots)'),
+    'sl.slot.reader': dict(deciding=True, text='load at _seq = 2k or (slots > 1) 2k+1 reads slot k mod slots; after a write it reads the slot the writer filled'),
+    'sl.slot.disjoint': dict(deciding=True, text='slots > 1: the slot written under 2k+1 differs from the slot a reader of 2k or 2k+1 reads, for all k'),
+    'sl.store_load.roundtrip': dict(deciding=True, text='store(v); load() returns v in all sizeof(T) bytes; store leaves every other slot unchanged; load changes nothing'),
+    'sl.update.applies': dict(deciding=True, text='update(f) applies f exactly once, while holding the lock, to the value current at that time, and publishes exactly f\'s result (= store(f(load()))); other slots unchanged'),
+    'sl.load.untorn': dict(deciding=True, text='[INT, rely R1-R3] on return all sizeof(T) bytes were read from the slot designated by an observation of _seq made during the call (even if slots == 1), each while the slot still had the version observed then, and are bit-identical to that version'),
+    'sl.load.fresh': dict(deciding=True, text='[INT] the version returned is not older than the last store completed before the call'),
+    'sl.load.readonly': dict(deciding=True, text='load writes neither _seq nor any slot'),
+    'sl.load.sync': dict(deciding=True, text='sync precondition: every load of _seq in load() is acquire-or-stronger and an acquire fence separates the relaxed data loads from the validating load of _seq (comments 1,2,3,6)'),
+    'sl.store.sync': dict(deciding=True, text='sync precondition: the lock CAS is acquire-or-stronger, a release fence separates it from the relaxed data stores, the unlocking store is release-or-stronger (comments 4,5,7)'),
+    'sl.load.terminates': dict(deciding=True, text='[SOLO] slots > 1: load returns within 2 iterations from any state, odd _seq included'),
+  },
+  loop_obligation={'LOAD': 'sl.load.untorn', 'WAIT': 'sl.load.untorn', 'ACQ': 'sl.lock.acquire', 'ACQW': 'sl.lock.acquire'},
+  replays={'sl.copy.all_bytes': dict(src='replay_copy.cpp'), 'sl.store_load.roundtrip': dict(src='replay_copy.cpp'),
+           'sl.copy.aligned': dict(src='replay_copy.cpp'), 'sl.copy.in_bounds': dict(src='replay_copy.cpp')},
+  canaries=['copy.frame_other_slot', 'copy.done', 'copy.tail_byte', 'lock.done', 'store_load.done', 'store_load.frame', 'update.done', 'update.frame',
+            'slots.multi', 'slots.done', 'solo.odd', 'solo.even', 'load_int.returned', 'load_int.seq_moved', 'load_int.env_wrote', 'load_int.odd_start',
+            'acquire_int.returned', 'acquire_int.env_wrote'],
 )
